@@ -9,6 +9,8 @@ CREATED = []   # work directories made by this process (removed by the driver at
 
 VERIF_KINDS = [
     ("postcondition not satisfied", "postcondition"),
+    ("unable to prove post-condition of closure", "postcondition"),
+    ("unable to prove assertion", "assertion"),
     ("precondition not satisfied", "precondition"),
     ("assertion failed", "assertion"),
     ("invariant not satisfied", "invariant"),
